@@ -70,65 +70,56 @@ pub fn number_to_string(n: f64) -> String {
         return "0".to_string();
     }
 
-    let abs_n = n.abs();
-
-    // Check if it's an integer that can be represented exactly
-    if math::trunc(n) == n && abs_n < 1e21 {
-        // Format as integer (no decimal point)
-        return format!("{:.0}", n);
-    }
-
-    // Very small numbers (absolute value < 1e-6) use exponential notation
-    // Very large numbers (absolute value >= 1e21) use exponential notation
-    if !(1e-6..1e21).contains(&abs_n) {
-        // Use exponential notation
-        format_exponential(n)
-    } else {
-        // Use decimal notation
-        // We need to produce the shortest representation that round-trips
-        format_decimal(n)
-    }
+    // Shortest digits that read back to `n` (what `{:e}` prints: "d.ddde-7"),
+    // laid out as Number::toString prescribes: with k digits and the decimal
+    // point after the first `point` of them, plain notation iff -6 < point <= 21.
+    let (digits, point) = shortest_digits(n.abs());
+    let sign = if n < 0.0 { "-" } else { "" };
+    format!("{}{}", sign, layout_decimal(&digits, point))
 }
 
-/// Format a number in exponential notation matching JavaScript's output
-fn format_exponential(n: f64) -> String {
-    // Get the exponent
-    let abs_n = n.abs();
-    let exponent = math::floor(math::log10(abs_n)) as i32;
-    let mantissa = n / math::powi(10_f64, exponent);
-
-    // Format mantissa - remove trailing zeros after decimal point
-    let mantissa_str = if math::trunc(mantissa) == mantissa {
-        format!("{:.0}", mantissa)
-    } else {
-        let s = format!("{}", mantissa);
-        // Remove trailing zeros but keep at least one digit after decimal
-        s.trim_end_matches('0').to_string()
+/// The shortest decimal digit string that uniquely identifies the finite,
+/// positive double `abs`, and the position of the decimal point relative to its
+/// start: `abs` ~ 0.d1d2...dk x 10^point.
+pub(crate) fn shortest_digits(abs: f64) -> (String, i32) {
+    let sci = format!("{:e}", abs);
+    let (mantissa, exponent) = match sci.split_once('e') {
+        Some((m, e)) => (m, e.parse::<i32>().unwrap_or(0)),
+        None => (sci.as_str(), 0),
     };
-
-    // Format exponent with sign
-    if exponent >= 0 {
-        format!("{}e+{}", mantissa_str, exponent)
-    } else {
-        format!("{}e{}", mantissa_str, exponent)
-    }
+    let digits: String = mantissa.chars().filter(|c| c.is_ascii_digit()).collect();
+    (digits, exponent + 1)
 }
 
-/// Format a number in decimal notation matching JavaScript's output
-fn format_decimal(n: f64) -> String {
-    // Use Rust's default formatting which handles most cases
-    let s = format!("{}", n);
-
-    // Remove trailing zeros after decimal point (but keep at least one digit)
-    if s.contains('.') {
-        let trimmed = s.trim_end_matches('0');
-        if trimmed.ends_with('.') {
-            format!("{}0", trimmed)
-        } else {
-            trimmed.to_string()
+/// Number::toString layout of `0.digits x 10^point` (digits non-empty, no sign).
+pub(crate) fn layout_decimal(digits: &str, point: i32) -> String {
+    let k = digits.len() as i32;
+    if k <= point && point <= 21 {
+        // integer: digits followed by point-k zeros
+        let mut out = String::from(digits);
+        for _ in 0..(point - k) {
+            out.push('0');
         }
+        out
+    } else if 0 < point && point <= 21 {
+        let (int_part, frac_part) = digits.split_at(point as usize);
+        format!("{}.{}", int_part, frac_part)
+    } else if -6 < point && point <= 0 {
+        let mut out = String::from("0.");
+        for _ in 0..(-point) {
+            out.push('0');
+        }
+        out.push_str(digits);
+        out
     } else {
-        s
+        let e = point - 1;
+        let exp_sign = if e < 0 { '-' } else { '+' };
+        let (first, rest) = digits.split_at(1);
+        if rest.is_empty() {
+            format!("{}e{}{}", first, exp_sign, e.abs())
+        } else {
+            format!("{}.{}e{}{}", first, rest, exp_sign, e.abs())
+        }
     }
 }
 
